@@ -14,7 +14,7 @@ RULE = ('one case = one scripted server with a moduli policy (subset of {512,768
         'OpenSSH, Dropbear or unknown banner, audited for real (quick: all subsets of size <= 2 and all suffix subsets; thorough: all 511 subsets).  Oracle: reported size == model(min over the fixed probe sequence of what the policy hands out; '
         'OpenSSH + 2048 => answer to the 2048-3072-4096 probe) and == the same function of the GEX_REQUESTs the peer actually logged; differential 2048/3072 threshold oracle against a 4096-bit baseline; '
         'refusing / stalling / garbage servers get no size, and so does an OpenSSH server whose fallback answered 2048 but whose follow-up probe (alone) is refused, stalled, truncated or garbled.  Non-trivial: >= 1 GEX_REQUEST logged and a size verdict compared; distinct = distinct (policy, algorithms, banner)')
-REQUIRED = {'followup_faults_observed': 5, 'multi_target_sizes': 8, 'gex_requests_logged': 200, 'size_verdicts': 40, 'below_2048': 5, 'warn_band': 5, 'no_size_expected': 5, 'openssh_second_pass': 3, 'fault_cases': 3}
+REQUIRED = {'sizes_not_multiple_of_8': 10, 'followup_faults_observed': 5, 'multi_target_sizes': 8, 'gex_requests_logged': 200, 'size_verdicts': 40, 'below_2048': 5, 'warn_band': 5, 'no_size_expected': 5, 'openssh_second_pass': 3, 'fault_cases': 3}
 ASSUMPTIONS = ['moduli policies are monotone (a larger request never yields a smaller modulus)',
                'for sizes below 2048 only "at least one extra failure note" is demanded (the tool replaces the generic SHA-1 failure text of the sha1 variant by the size text)',
                'the OpenSSH explanatory note is demanded only when the follow-up probe returns a size different from 2048']
@@ -36,10 +36,17 @@ def cases(tier, seed):
         subs = [list(c) for n in (1, 2) for c in itertools.combinations(ALL, n)] + [ALL[i:] for i in range(len(ALL))] + [[1024, 2048, 4096], [2048, 3072, 4096]]
     else:
         subs = [list(c) for n in range(1, 10) for c in itertools.combinations(ALL, n)]
+    # moduli whose length is not a multiple of 8 or 4 bits, next to the two thresholds and elsewhere: the reported size is the bit length of what was handed out, not a rounded one
+    odd = [[2047], [2049], [3071], [3073], [2046], [2041], [3065], [1023], [4095], [2047, 3071], [1025, 2047], [2049, 3071], [3071, 4097], [2043, 3069, 4093]]
+    if tier == 'thorough':
+        odd += [[b + d] for b in (1024, 1536, 2048, 3072, 4096, 6144, 8192) for d in (-9, -7, -4, -3, -2, -1, 1, 2, 3, 5)] + [[2048 - d, 3072 - d] for d in (1, 2, 3, 4, 5, 6, 7)]
+    subs = subs + odd
     cs = []
     i = 0
     for s in subs:
         for style in ('strict', 'roundup', 'openssh', 'exact', 'roundup-max'):
+            if s in odd and style not in ('strict', 'roundup'):
+                continue
             if style in ('exact', 'roundup-max') and tier == 'quick':
                 # two further readings of "strict" / "round-up" (exact preferred size only; smallest size between preferred and max): kept in the quick tier where they answer the probe sequence differently from the first two
                 seq = [peermod.moduli_answer({'sizes': s, 'style': style}, *q) for q in SEQ]
@@ -262,6 +269,7 @@ def run_case(c):
         band = 'fail' if want < 2048 else 'warn' if want < 3072 else 'none'
         counters['below_2048'] = counters.get('below_2048', 0) + (band == 'fail')
         counters['warn_band'] = counters.get('warn_band', 0) + (band == 'warn')
+        counters['sizes_not_multiple_of_8'] = counters.get('sizes_not_multiple_of_8', 0) + (want % 8 != 0)
         ok = True
         if band == 'fail':
             ok = len(ex['fail']) >= 1 and not ex['warn']
